@@ -32,7 +32,7 @@ ASSUMPTIONS = [
   "plus 3 object-hash permutations through the seam of vt/seams.py; not a structural argument over all 2^32 seeds",
   "aliasing rule: if two instances under one top are given the same module name, the texts obtained by translating each of them alone must be identical "
   "(module header line excluded); in addition the pair design is executed with the E3 interpreter and compared with PyMTL on 12 input values",
-  "the catalogue is fixed (vt/checks/c13_designs.py, 49 entries -> 1225 unordered pairs incl. the diagonal in the quick tier, 2401 ordered pairs in the thorough tier); both backends",
+  "the catalogue is fixed (vt/checks/c13_designs.py, 51 entries -> 1326 unordered pairs incl. the diagonal in the quick tier, 2601 ordered pairs in the thorough tier); both backends",
   "thorough tier: 16 hash seeds and every fourth design of the E2 families added to the determinism catalogue",
 ]
 
@@ -78,7 +78,8 @@ def check_pair(la, fa, lb, fb, backend, acc, cache):
       # The translator refuses to emit text in which two different bodies would share a module name: nothing is
       # aliased silently, but the two components DO collide on a module name, which the property excludes.
       acc.count("collision_reported"); acc.add("collisions", f"{backend}:{la}|{lb}"); acc.add("shared_names", (backend, la, lb))
-      acc.violation(f"{backend}:pair:name-collision-refused:{la}|{lb}", case, "components that differ in class, parameters or behaviour get different module names",
+      l1, l2 = sorted((la, lb), key=lambda l: [l for l, _ in D.catalogue()].index(l))     # the finding is symmetric: catalogue order in the signature
+      acc.violation(f"{backend}:pair:name-collision-refused:{l1}|{l2}", case, "components that differ in class, parameters or behaviour get different module names",
                     "translator: both components map to one module name (translation refused)", f"{la} + {lb}")
     else:
       acc.count("not_translatable"); acc.add("translate_errors", f"{la}|{lb}:{type(ex).__name__}")
@@ -187,6 +188,7 @@ def det_classes():
   out += [("NormalQueueRTL3", lambda: Q.NormalQueueRTL(Bits8, 3)), ("PipeQueueRTL2", lambda: Q.PipeQueueRTL(Bits8, 2)), ("BypassQueueRTL2", lambda: Q.BypassQueueRTL(Bits4, 2)),
           ("StreamNormalQueue2", lambda: SQ.NormalQueueRTL(Bits8, 2)), ("RoundRobinArbiter4", lambda: A.RoundRobinArbiter(4)), ("RoundRobinArbiterEn3", lambda: A.RoundRobinArbiterEn(3)),
           ("RegisterFile", lambda: RegisterFile(Bits8, 4, 2, 1))]
+  out += [("FnParam", lambda: D.FnParam(D.double)), ("ObjParam", lambda: D.ObjParam(D.PlainCfg(3)))]
   cat = D.catalogue()
   pick = [0, 1, 4, 5, 10, 14, 20, 23, 25, 27, 31, 35, 37]
   for i, j in zip(pick, pick[1:] + pick[:1]):
@@ -297,7 +299,7 @@ def check_det(acc, tier="quick"):
       acc.count("evaluations")
       if ref[design] != h:
         name, backend = design.rsplit("|", 1)
-        acc.violation(f"determinism:{backend}:{name.split(':')[0]}:{'seed' if k.startswith('seed') else 'objhash'}",
+        acc.violation(f"determinism:{backend}:{name.split(':')[0]}",
                       dict(kind="determinism", design=design, seeds=[0, int(k[4:]) if k.startswith("seed") else 1], run=k),
                       "byte-identical text", f"differs between {ref_k} and {k}", design)
   acc.count("det_designs", len(ref)); acc.count("det_runs", len(dig))
